@@ -39,6 +39,23 @@ pub fn exercise(b: &Board, depth: u32) -> u64 {
     let _ = b.king_sq(chess_bitboard::Color::Black);
     let _ = b.king_legals(chess_bitboard::Color::White).len();
     let _ = b.king_legals(chess_bitboard::Color::Black).len();
+    let _ = b.king_legals(chess_bitboard::Color::White).count();
+    let _ = b.king_legals(chess_bitboard::Color::Black).count();
+    // every formatting trait of the board, its raw board and its bitboards ("printing")
+    let _ = format!("{b:#?}");
+    let r = b.raw();
+    let _ = format!("{r:?}{r:#?}{r:b}{r:x}{r:X}{r:#b}{r:#x}");
+    for p in chess_bitboard::Piece::all() {
+        let bb = b[p];
+        let _ = format!("{bb:?}{bb:#?}{bb:b}{bb:x}{bb:X}");
+        let _ = r[p];
+    }
+    {
+        use std::hash::{Hash, Hasher};
+        let mut h = std::collections::hash_map::DefaultHasher::new();
+        b.hash(&mut h);
+        let _ = h.finish();
+    }
     let mut it = b.legals();
     let _ = it.len();
     let _ = it.size_hint();
@@ -60,7 +77,13 @@ pub fn c06_case(input: &[u8]) -> Vec<Divergence> {
     let r = std::panic::catch_unwind(|| chess_movegen::fen::parse_fen(input));
     match r {
         Err(_) => vec![Divergence::new("parser-panics", format!("parse_fen(0x{} = {:?}) panicked", hex(input), String::from_utf8_lossy(input)))],
-        Ok(Err(_)) => vec![],
+        Ok(Err(e)) => {
+            // the error's own printing is part of the safe API
+            if EXERCISE.load(Ordering::Relaxed) && std::panic::catch_unwind(|| (format!("{e}{e:?}{e:#?}"), std::error::Error::source(&e).is_some())).is_err() {
+                return vec![Divergence::new("parser-panics", format!("formatting the error of parse_fen(0x{}) panicked", hex(input)))];
+            }
+            vec![]
+        }
         Ok(Ok(b)) => {
             let mut d = accepted_board_invariants(&b, &format!("parse_fen({:?})", String::from_utf8_lossy(input)));
             if EXERCISE.load(Ordering::Relaxed) {
